@@ -89,6 +89,25 @@ func exercise(in Input) string {
 			_ = s.Location()
 		}
 	}
+	// texts with deviations, includes or uses statements also under the options that change how
+	// those are handled (all three switched on); what comes back is not judged, only that it does
+	for _, f := range in.Files {
+		if t := f.text(); strings.Contains(t, "deviat") || strings.Contains(t, "include") || strings.Contains(t, "uses") {
+			mo := yang.NewModules()
+			mo.ParseOptions.DeviateOptions.IgnoreDeviateNotSupported = true
+			mo.ParseOptions.StoreUses = true
+			mo.ParseOptions.IgnoreSubmoduleCircularDependencies = true
+			for _, f := range in.Files {
+				mo.Parse(f.text(), f.Name)
+			}
+			if len(mo.Process()) == 0 {
+				for _, m := range mo.Modules {
+					walk(yang.ToEntry(m), 0, map[*yang.Entry]bool{}, func(x *yang.Entry) { _ = x.Path(); _ = len(x.Uses) })
+				}
+			}
+			break
+		}
+	}
 	ms := yang.NewModules()
 	loaded := 0
 	for _, f := range in.Files {
@@ -603,7 +622,7 @@ func replay(tier string, raw json.RawMessage) (bool, string, string) {
 func init() {
 	core.Register(&core.Prop{
 		ID: "C01", Variant: "plain", Shards: shards, Run: run, Replay: replay,
-		Rule:        "every input of eight exhaustively enumerated layers (lexical spaces; path arguments; type bodies whose restriction arguments sit at, inside and outside the limits the resolver computes with; statement trees over the whole keyword alphabet; cross-reference programs with self-, mutual, dangling, unknown-prefix and wrong-kind references across modules and submodules in all load orders; the single-edit neighbourhood of a seed corpus) is run through yang.Parse, Modules.Parse, Process, and - when processing is clean - ToEntry, GetErrors, a full guarded walk and Find with paths that exist and paths that do not, from the module entry and from inner nodes; the oracle is that every call returns: a Go panic is caught in-process, a fatal error or a hang kills the crash-isolated worker and is attributed to the case it had announced; states = distinct inputs; non-trivial = inputs that reach processing",
+		Rule:        "every input of eight exhaustively enumerated layers (lexical spaces; path arguments; type bodies whose restriction arguments sit at, inside and outside the limits the resolver computes with; statement trees over the whole keyword alphabet; cross-reference programs with self-, mutual, dangling, unknown-prefix and wrong-kind references across modules and submodules in all load orders; the single-edit neighbourhood of a seed corpus) is run through yang.Parse, Modules.Parse, Process (texts with deviations, includes or uses also with the three parse options switched on), and - when processing is clean - ToEntry, GetErrors, a full guarded walk and Find with paths that exist and paths that do not, from the module entry and from inner nodes; the oracle is that every call returns: a Go panic is caught in-process, a fatal error or a hang kills the crash-isolated worker and is attributed to the case it had announced; states = distinct inputs; non-trivial = inputs that reach processing",
 		Assumptions: []string{"trees are read only after a Process that returned no errors", "a case that runs longer than 40 s is a hang (cases take microseconds to milliseconds)"},
 	})
 }
